@@ -215,6 +215,9 @@ class Patcher(object):
         o["access"] = os.access
         o["getpid"] = os.getpid
         o["getppid"] = os.getppid
+        import time as _time
+        o["sleep"], o["time"], o["monotonic"] = (_time.sleep, _time.time,
+                                                 _time.monotonic)
         o["os_open"] = os.open
         o["os_close"] = os.close
         import _io
@@ -392,6 +395,36 @@ class Patcher(object):
                 return o["getpid"]()
             return proc.pid
 
+        # waiting is made visible: a sleeping virtual process yields to the
+        # scheduler (one scheduling point) and its own virtual clock advances
+        # by the requested time; time.time()/monotonic() read that clock
+        def v_sleep(secs):
+            proc = current()
+            if proc is None:
+                return o["sleep"](secs)
+            if proc.dead:
+                return None
+            proc.point(("sleep", ))
+            # (a sleeping process may be resumed arbitrarily late: every
+            # sleep takes at least one second of virtual time here, so that
+            # polling loops with a timeout end after a few iterations -
+            # one admissible schedule among many, stated in the evidence)
+            proc.vclock = getattr(proc, "vclock", 0.0) + max(1.0, float(secs))
+            proc.observe(("sleep", ))
+            return None
+
+        def v_time():
+            proc = current()
+            if proc is None:
+                return o["time"]()
+            return 1700000000.0 + getattr(proc, "vclock", 0.0)
+
+        def v_monotonic():
+            proc = current()
+            if proc is None:
+                return o["monotonic"]()
+            return 1000.0 + getattr(proc, "vclock", 0.0)
+
         def v_getppid():
             proc = current()
             if proc is None:
@@ -514,6 +547,8 @@ class Patcher(object):
         os.access = v_access
         os.getpid = v_getpid
         os.getppid = v_getppid
+        import time as _time
+        _time.sleep, _time.time, _time.monotonic = v_sleep, v_time, v_monotonic
         os.fsync = v_fsync
         os.fdatasync = v_fsync
         pathlib.Path.home = classmethod(v_home)
@@ -541,6 +576,9 @@ class Patcher(object):
         os.access = o["access"]
         os.getpid = o["getpid"]
         os.getppid = o["getppid"]
+        import time as _time
+        _time.sleep, _time.time, _time.monotonic = (o["sleep"], o["time"],
+                                                    o["monotonic"])
         os.open = o["os_open"]
         os.fsync = o["fsync"]
         os.fdatasync = o["fdatasync"]
